@@ -3,7 +3,8 @@ drivers to run, how non-triviality is judged)."""
 
 QUEUE_RULE = ("queue: seeded random Push/Pop histories (2..40 ops + drain) over 1..3 tags (priority 0..2, all four orders, chunk 1..6 or whole, "
               "last-delay 0/3600 s), 1..4 groups incl. names that are prefixes of each other and groups without a tag; files arriving late and older, "
-              "equal timestamps, young files inside the delay, pre-allocated placeholders, resumed files with own predecessor; 3/4 of the cases push each "
+              "equal timestamps, young files inside the delay (for C12 also: a 1 s delay that ELAPSES in real time between two Pops, no Push in between), "
+              "pre-allocated placeholders, resumed files with own predecessor; 3/4 of the cases push each "
               "name once (proved domain), 1/4 re-push pending names (finding domain); every Pop of the real queue is compared with the model and judged by "
               "the oracles on the agreed pre-state; non-trivial = >=2 groups served or >=4 chunks; distinct = distinct input lines")
 
@@ -45,7 +46,7 @@ E2E_RULE = ("e2e: the real client.Broker with the real store.Local, cache.JSON, 
             "crash (sender frozen at a random interface-event index incl. its cache writes, new Broker on the persisted cache), reuse (a name used again after "
             "release), mutate (file rewritten while queued), swap (replaced by a same-size version with an mtime 400 ms later in the same second, right after its "
             "last byte was received and before the answer returns, scanner slowed to 400 ms), stopfail (one-shot run in which every file fails validation and the first poll "
-            "answer takes 1.3 s: more failed verdicts than the retry channel holds, hand-off channels full at shutdown), vanish (a queued file disappears), eligible (young/hidden/ignored/lock/not-included files beside eligible ones); facts are computed "
+            "answer takes 1.3 s: more failed verdicts than the retry channel holds, hand-off channels full at shutdown), refail (one file's first byte is damaged on the way the first 2..4 times it is sent: it fails validation again and again before the line is clean), vanish (a queued file disappears), eligible (young/hidden/ignored/lock/not-included files beside eligible ones); facts are computed "
             "from the recorded interface events; non-trivial = at least two requests; distinct = distinct scenario lines")
 E2E_NOTE = ("Trusted: Coq kernel (no axioms), harness (the in-process transport stands in for http.Client/http.Server; wrappers around Store and the sent-log "
             "record events). The theorems are about decision functions of the sender model (poll handling, restart plan, scan predicate, send loop); the "
@@ -71,14 +72,17 @@ HTTP_RULE = ("http: a real serverApp behind the real Serve mux on 127.0.0.1: sys
              "key list on/off x key {none, right, wrong}; every name of a 19-element traversal list (parent segments, absolute, a/../.., repeated and mixed "
              "separators, percent-encoding, 300-byte names) in the name / predecessor / rename field of every route with separator header '', '/', '\\'; plus "
              "seeded requests built from up to 3 traversal fragments; after each request the whole sandbox tree incl. files outside the configured directories "
-             "is compared with the snapshot before; non-trivial = unauthorised or dotted input; distinct = distinct input lines")
+             "is compared with the snapshot before; static GET / DELETE also against a receiver WITHOUT a serve directory (working directory = the receiver's home, "
+             "source names final / stage / logs / serve / mid / '.', a delivered file of another source present): nothing may be served; after every request "
+             "the poll answers an authorised sender of source good gets about a file that failed validation and a file held for its predecessor (state kept in "
+             "memory only) are compared with those before; non-trivial = unauthorised or dotted input; distinct = distinct input lines")
 
 PROPS = {
     "C09": dict(
         coq="Properties/C09.v",
         suites=[
             dict(name="ranges", pkg="./stage/", test="TestVerifRanges", min_lines=1000),
-            dict(STAGE_SUITE, oracles=["companion_claims_unwritten"], diffs=["companions", "received", "scan", "receive"]),
+            dict(STAGE_SUITE, oracles=["companion_claims_unwritten", "counted_part_not_on_record"], diffs=["companions", "received", "scan", "receive"]),
             race_suite(["complete_file_not_delivered", "acknowledged_part_not_on_record"]),
         ],
         rule=("ranges: every history of <=3 (thorough: <=4) ranges over the grid 0..5 (0..6) with every query range, "
@@ -88,9 +92,12 @@ PROPS = {
         level_text=("Proof: Coq theorems over the executable model of addCompanionPart / companionPartExists / isCompanionComplete, for "
                     "all records, parts and histories (complete=>covered and 'claims only acknowledged bytes' unrestricted; exactness, "
                     "sortedness and exists-soundness on the disjoint-or-identical discipline; the two overlap cases refuted with witnesses = known findings). "
+                    "The answer to 'how many of these parts did you receive' is proved to be the leading run of parts on record (it stops at the first "
+                    "part that is not), a part counting only when the companion of exactly that version records the range or the file is known as that "
+                    "version in a state other than failed; every Received query of the stage histories is judged by that (counted_part_not_on_record). "
                     "The model is tied to the code by an exhaustive small-scope + seeded differential run of the real functions on every check."),
         level_note=("Trusted: Coq kernel (no axioms; Closed under the global context), extraction (ExtrOcamlBasic), the OCaml/Go harness. "
-                    "Modelled by hand, tied by correspondence: stage/companion.go range functions. Not modelled: int64 overflow, file-system durability."),
+                    "Modelled by hand, tied by correspondence: stage/companion.go range functions, stage/local.go Received / partReceived. Not modelled: int64 overflow, file-system durability."),
         technique="Coq proof (induction over part histories) + extracted-model differential testing of the real Go functions",
         assumptions=[
             "int64 wrap-around is not modelled (offsets are unbounded Z)",
@@ -152,7 +159,8 @@ PROPS = {
         suites=[
             dict(name="queue", pkg="./queue/", test="TestVerifQueue", min_lines=1000,
                  oracles=["priority_inversion", "round_robin_bypassed", "idle_while_ready"],
-                 diffs=["pop-group", "pop-nil"]),
+                 diffs=["pop-group", "pop-nil"],
+                 env_quick={"VERIF_QUEUE_WAIT": 6}, env_thorough={"VERIF_QUEUE_WAIT": 40}),
         ],
         rule=QUEUE_RULE,
         level_text=("Proof: Coq theorems for all histories: the group list stays sorted by priority, Pop serves the first ready group in list order, "
@@ -172,13 +180,15 @@ PROPS = {
               "hashes, spaces, unicode; 1/12 of the cases with ':' in names = finding domain), same name logged again with another hash, rename targets "
               "that look like hashes; 2..9 look-ups per case (written and unwritten names, with/without hash; windows: same day, across midnight, wide, "
               "reversed, empty, not touching) + Parse over the whole range; plus concurrent-writer runs (8 goroutines x 60 records); non-trivial = a case "
-              "with both positive and negative answers; distinct = distinct input lines"),
+              "with both positive and negative answers; every third case runs in a fixed zone 12 h from UTC, on the side where the local calendar date "
+              "differs from the UTC date at the time of the run; distinct = distinct input lines"),
         level_text=("Proof: Coq theorems over the model of the log format and the day walk: a record answers a look-up iff its name field equals the "
                     "name (and its hash field the hash), every touched day is visited for forward/reversed windows, the whole-log look-up is exact, "
                     "Parse returns every field as written (for ':'-free fields); refuted with a witness for names containing ':' (format limitation = "
                     "known finding). The model describes the code after the 'fix:' commit 88c8cb3; tied to it by the differential run of the real FileIO."),
         level_note=("Trusted: Coq kernel (no axioms), extraction, harness. Modelled by hand: log/local.go search/each/eachLine/Parse/line formats. "
-                    "Library code assumed: strconv, bufio.Scanner (lines < 64 KiB), fmt. Time zone: UTC (harness sets TZ=UTC; DST days are not modelled). "
+                    "Library code assumed: strconv, bufio.Scanner (lines < 64 KiB), fmt. Time zone: the harness sets TZ=UTC and switches time.Local to UTC-12 / UTC+12 for a third of the cases (a fixed zone shifts the time axis "
+                    "of the model; DST days are not modelled). "
                     "Concurrent writers: serialised by the logger goroutine - exercised (whole lines, multiset equal), not proved."),
         technique="Coq proof (split/join, prefix exactness, day-walk induction) + extracted-model differential testing of the real log code",
         assumptions=["TZ=UTC; local-time DST days (23/25 h) not modelled", "times are whole seconds; zero time.Time arguments not generated",
@@ -219,8 +229,15 @@ PROPS = {
     "C05": dict(
         coq="Properties/C05.v",
         suites=[dict(STAGE_SUITE, oracles=["logged_twice", "logged_twice_after_record_aged_out", "logged_twice_single_version", "delivered_version_not_recognised", "delivered_version_not_recognised_single_version", "superseded_version_not_recognised"], diffs=["finals", "log", "received", "status", "stage-files"]),
-                race_suite(["logged_twice"])],
-        rule=STAGE_RULE + RACE_RULE,
+                race_suite(["logged_twice"]),
+                dict(name="redeliver", pkg="./http/", test="TestVerifRedeliver", min_lines=40, timeout_quick=600,
+                     oracles=["not_delivered_in_the_first_place", "delivered_version_logged_again_after_restart", "delivered_version_not_recognised_after_restart"],
+                     diffs=["retransmission-status"])],
+        rule=STAGE_RULE + RACE_RULE + (" redeliver: the REAL http Client (Transmit / RecoverTransmission) -> Server (handleValidate, routeData, routeDataRecovery, "
+              "payload.NewDecoder) -> stage.Stage -> log.FileIO over loopback, 6 time zones (UTC, -11, -8, -3, +9, +13 h) x file time of day (21:00, 03:00, 12:00 "
+              "local) x 1 / 3 days ago x {announced by a data-recovery request, sent whole}: a file is delivered, its log record moved to ten minutes after the "
+              "file time, the receiver restarted (a new Stage on the same directories), and the same version retransmitted: it must be answered 'held' and "
+              "logged exactly once (implementation-only oracles)"),
         level_text=("Proof (step level): a finalisation appends at most one record and changes the final directory only together with it. The history-level "
                     "'exactly once' statement is evaluated as an oracle on every trace (no (name,hash) logged twice); it is refuted by the faithful model when a "
                     "failed other version of the name replaced the in-memory record of a delivery (known finding C05-F1)."),
@@ -305,7 +322,10 @@ PROPS = {
     ),
     "C02": dict(
         coq="Properties/C02.v",
-        suites=[e2e_suite("plain,faults,reuse,mutate,crash,swap,pollnone", ["deleted_without_validated_copy", "source_gone_receiver_lacks_it", "released_without_positive_answer"], n=9),
+        suites=[e2e_suite("plain,faults,reuse,mutate,crash,swap,swapfail,pollnone", ["deleted_without_validated_copy", "source_gone_receiver_lacks_it", "released_without_positive_answer"], n=9),
+                dict(name="finish", pkg="./client/", test="TestVerifFinish", min_lines=400,
+                     oracles=["entry_confirmed_by_answer_about_another_version", "source_removed_without_confirmation_of_that_version"],
+                     diffs=["finish-done", "finish-removed", "finish-retry"]),
                 dict(STAGE_SUITE, oracles=["positive_status_without_copy", "positive_status_for_another_version"], diffs=["status"]),
                 dict(CACHE_SUITE, oracles=["confirmation_carried_over_to_another_version"])],
         rule=E2E_RULE + " | " + STAGE_RULE,
@@ -322,8 +342,12 @@ PROPS = {
         suites=[e2e_suite("crash,crashfail,crashgone", ["sent_log_record_repeated_after_restart", "resent_bytes_receiver_reported_held", "not_delivered_after_sender_restart", "deleted_without_validated_copy", "source_gone_receiver_lacks_it", "released_without_positive_answer"], n=14),
                 dict(name="chunk", pkg="./client/", test="TestVerifChunk", min_lines=1000, oracles=["chunks_not_tiling_missing"], diffs=["left", "left-kind", "chunks"]),
                 e2e_suite("reuse", ["deleted_without_validated_copy", "source_gone_receiver_lacks_it"], n=9),
-                CACHE_SUITE],
-        rule=E2E_RULE + CACHE_RULE,
+                CACHE_SUITE,
+                # "the ordering chain continues from the files handled before the crash": recover() pushes the files the receiver
+                # holds completely as fully allocated placeholders; what the queue announces for the files behind them
+                dict(name="queue", pkg="./queue/", test="TestVerifQueue", min_lines=1000,
+                     oracles=["wrong_predecessor", "names_itself"], diffs=["pop-prev"])],
+        rule=E2E_RULE + CACHE_RULE + " " + QUEUE_RULE,
         level_text=("Proof (plan level) + crash enumeration: the restart plan re-sends ranges only for an unconfirmed, unchanged, partly received file and "
                     "exactly the complement of what the receiver lists (missing_complement); an unconfirmed file is never skipped or marked done; nothing is "
                     "finished at restart without a positive answer. Sender crashes are injected at random interface-event indexes (all wrappers and cache "
@@ -343,12 +367,14 @@ PROPS = {
         rule=CACHE_RULE + (" scan: the REAL store.Local.Scan + Broker.includeScannedFile + Broker.scan (hashing, cache.JSON) on generated trees (15 names: nested, hidden "
               "files and directories, ignored, lock, included / not included, a name with a space, a symbolic link) x minimum age {0, 10 s, 60 s} x hidden on/off x "
               "include list on/off; histories of 4..18 operations: create anew (rename over the name), rewrite in place, append, touch forwards and BACKWARDS, "
-              "replace by a same-size file with an older / newer / identical mtime, remove, disable marker on/off, scan; ages stay 3 s clear of the minimum-age "
+              "replace by a same-size file with an older / newer / identical mtime, remove, disable marker on/off, cache entry confirmed, a cache-age interval "
+              "passes (the next scan begins with the cache clean-up), scan; ages stay 3 s clear of the minimum-age "
               "boundary; 40 directed histories first; every scan's returned (name, size, mtime) set is compared with the model and the hash with the content on "
               "disk; non-trivial = at least two scans; distinct = distinct input lines. " + E2E_RULE),
         level_text=("Proof: a scan returns a file iff all eligibility conditions hold and it is new or changed; over every history of scans (trees, clocks and "
                     "the disable marker changing arbitrarily in between) a scan returns exactly the eligible files whose (size, mtime) differs - in either "
-                    "direction - from the version of that name returned last, and a returned file left unchanged is not returned again. The history model is run "
+                    "direction - from the version of that name returned last, and a returned file left unchanged is not returned again; the periodic cache clean-up forgets "
+                    "exactly the names whose file is gone and is invisible to the scan it precedes. The history model is run "
                     "against the real scanner + cache on generated histories. End-to-end: real store.Local scans of generated trees (young, hidden, ignored, lock, not-included files), re-used names and files "
                     "rewritten while queued: ineligible files are never transmitted or deleted, every eligible (last) version is delivered, and a delivered "
                     "file is never a mixture of versions."),
@@ -362,6 +388,7 @@ PROPS = {
                 e2e_suite("mutate,vanish", ["not_delivered_within_bound", "not_confirmed_after_rewrite_in_flight", "pipeline_never_drains_after_vanished_file"], n=8),
                 e2e_suite("crashfail,crash", ["not_delivered_after_sender_restart"], n=6),
                 e2e_suite("ring", ["not_delivered_within_bound"], n=3),
+                e2e_suite("refail", ["not_delivered_within_bound", "staging_area_not_empty_at_the_end"], n=6),
                 race_suite(["held_file_never_released_although_predecessor_logged", "complete_file_not_delivered"]),
                 dict(STAGE_SUITE, oracles=["positive_status_without_copy"], diffs=["status"])],
         rule=E2E_RULE + RACE_RULE + " " + STAGE_RULE,
@@ -392,7 +419,7 @@ PROPS = {
         coq="Properties/C19.v",
         suites=[dict(name="conf", pkg=".", test="TestVerifConf", min_lines=1000),
                 dict(name="tags", pkg="./main/", test="TestVerifTags", min_lines=100, timeout_quick=600,
-                     env_quick={"VERIF_N": 150}, env_thorough={"VERIF_N": 3000}),
+                     env_quick={"VERIF_N": 150, "VERIF_INHERIT_N": 60}, env_thorough={"VERIF_N": 3000, "VERIF_INHERIT_N": 1500}),
                 e2e_suite("reuse", ["deleted_before_delete_delay"], n=9)],
         rule=("conf: seeded documents generated from the schema: 1..3 sources each with threads / min-age / compress / poll-attempts / out-dir / target "
               "(key, quic-enable-datagrams, http3-port) / stat-payload / include-hidden / error-backoff / include / ignore and 0..3 tags (priority, order, "
@@ -402,23 +429,26 @@ PROPS = {
               "non-trivial = at least two sources; distinct = distinct input lines. tags: the REAL clientApp.init() on generated tag lists (0..4 pattern "
               "tags from 13 patterns: anchored, unanchored literals, character classes, end anchors; methods http / none) x 5 group-by patterns; for 12..13 "
               "names each (fragments joined by '/', extensions, the pattern texts themselves) the tag handed to broker and queue is compared with the "
-              "model's first-match rule (regexp verdicts computed with the library directly)"),
+              "model's first-match rule (regexp verdicts computed with the library directly); lines GI: senders of 2..4 sources, bin-size omitted / given, tag list "
+              "omitted (= the predecessor's tag objects) / given with and without chunk-size, the real init() of every source in configuration order, then the "
+              "first chunk of a 64 MiB file popped from each source's real queue for each tag vs. the model's chunk table"),
         level_text=("Proof: omitted options inherit the predecessor's (the default tag's) value, given values are never overridden, an explicit false is kept for "
                     "the options that carry a marker (stat-payload, error-backoff, delete), re-encoding is a fixed point of the effective configuration when "
-                    "'%f' preserves error-backoff, and a file gets the first pattern tag matching its group; refuted with witnesses (known findings) for options "
+                    "'%f' preserves error-backoff, a file gets the first pattern tag matching its group, and a source that gives a bin-size chunks every tag with a chunk-size written for a "
+                    "tag or with its own bin-size - never another source's; refuted with witnesses (known findings) for options "
                     "without a marker (include-hidden false, explicit zero of plain options, target booleans), the empty-include quirk and the 7th decimal of "
                     "error-backoff. Tied to the real unmarshalling / marshalling / propagate code by differential runs over generated YAML and JSON documents."),
         level_note=("Trusted: Coq kernel (no axioms), extraction, harness. Modelled by hand: ClientConf.propagate, reflectutil.CopyStruct/IsZero (0 = zero value), "
                     "SourceConf/TagConf applyAux + MarshalJSON markers, tagger/grouper. YAML/JSON lexing, regexp, units/duration parsing are library code. The "
-                    "wiring of tags into the running sender (main/client.go init) is stated as the first-match theorem; exercising init() itself is left to the "
-                    "thorough tier (not built)."),
+                    "wiring of tags into the running sender (main/client.go init) is exercised by the tags suite (tagger, grouper, queue tags and chunk sizes); "
+                    "the delete decision of a running sender by the e2e profile reuse."),
         technique="Coq proof (field-wise inheritance, marker semantics, re-encode fixpoint, first-match tagger) + differential testing of the real conf code",
         assumptions=["an option whose value is the type's zero value is 'omitted' unless it carries an is-set marker (stated in the theorems)"],
     ),
     "C14": dict(
         coq="Properties/C14.v",
         suites=[dict(name="http", pkg="./main/", test="TestVerifHTTP", min_lines=500, timeout_quick=900,
-                     oracles=["touched_file_outside_configured_directories", "touched_file_of_another_source", "disclosed_file_of_another_source"],
+                     oracles=["touched_file_outside_configured_directories", "touched_file_of_another_source", "disclosed_file_of_another_source", "served_without_a_serve_directory"],
                      diffs=["escaping-name-not-refused", "local-name-refused", "static-served-unsafe-path"])],
         rule=HTTP_RULE,
         level_text=("Proof: every name accepted by the routes' guard (filepath.IsLocal and not the directory itself) resolves, by the lexical Clean+Join the "
@@ -435,7 +465,8 @@ PROPS = {
     "C15": dict(
         coq="Properties/C15.v",
         suites=[dict(name="http", pkg="./main/", test="TestVerifHTTP", min_lines=500, timeout_quick=900,
-                     oracles=["refused_request_had_effect", "unauthorised_request_processed"],
+                     oracles=["refused_request_had_effect", "unauthorised_request_processed", "refused_request_changed_what_authorised_sender_is_told",
+                              "request_changed_what_sender_is_told_about_other_files"],
                      diffs=["refusal-code", "partials-status"]),
                 dict(race_suite(["ready_before_recovery_finished"]), env_quick={"VERIF_RACE_SWAP": 0, "VERIF_RACE_STORM": 8, "VERIF_RACE_READY": 4},
                      env_thorough={"VERIF_RACE_SWAP": 0, "VERIF_RACE_STORM": 8, "VERIF_RACE_READY": 40}, min_lines=8),
@@ -468,7 +499,9 @@ PROPS = {
               "wirehttp: the REAL Client.Transmit (gzip levels -1, 0, 1..9) against the REAL Server.handleValidate + routeData + payload.NewDecoder over a "
               "loopback TCP connection, the gate keeper recording what routeData hands over; each payload also 3 times as a raw request cut short after k "
               "bytes of the (compressed) body with separator header '/' or '\\'; uncompressed requests are compared with the model exactly, compressed and "
-              "cut ones by oracle (never 200 unless complete; every part only ever holds a prefix of its own bytes); non-trivial = at least two parts, a cut "
+              "cut ones by oracle (never 200 unless complete; every part only ever holds a prefix of its own bytes); plus groups of 2..3 payloads sent AT THE "
+              "SAME TIME through one Client at every level (every member's header is out before any body; bodies one after the other), each member "
+              "judged like a single request; non-trivial = at least two parts, a cut "
               "or compression; distinct = distinct input lines"),
         level_text=("Proof: the header (Go's JSON string escaping at byte level, decimal integers, the sec+nsec time format) decodes to exactly the descriptors "
                     "encoded, for all byte strings and all integers within +-10^19; the operational reader (PartDecoder.Read under any chunking and any "
